@@ -479,6 +479,18 @@ func cmdCheck(args []string) {
 				samples = append(samples, map[string]string{"entry": e.Fn, "path_condition": s})
 			}
 		}
+		for i, vec := range sum.ModelVectors {
+			if i >= 1 || len(samples) >= 10 {
+				break
+			}
+			m := map[string]string{}
+			for _, iv := range vec {
+				if iv.Kind != "hdef" && len(m) < 24 {
+					m[iv.Name] = iv.Value
+				}
+			}
+			samples = append(samples, map[string]interface{}{"entry": e.Fn, "explored_input_vector": m})
+		}
 		reports = append(reports, rep)
 		fmt.Printf("[%s %s] paths=%d %v forks=%d asserts(solver=%d,concrete=%d) queries=%d unknown=%d wall=%.1fs\n", id, e.Fn, sum.Paths, sum.ByStatus, sum.Forks, sum.AssertsSym, sum.AssertsConc, sum.Queries, sum.QUnknown, sum.Wall.Seconds())
 
